@@ -6,7 +6,29 @@ import Mathlib.Algebra.BigOperators.Ring.List
 import Mathlib.Tactic.FieldSimp
 import Mathlib.Tactic.Ring
 import Mathlib.Tactic.NormNum
+import Mathlib.Tactic.LinearCombination
+import Mathlib.Data.Fin.VecNotation
+import Mathlib.Algebra.Field.Rat
 
+/-! # C18 — distributed DP training equals single-process DP training on the union batch
+
+All statements are about the executable definitions of `OpacusLean/Model/Dist.lean` (the `Float`
+instance of the same definitions is run against the real optimizers in gloo process groups).
+They hold over any field `R` in which the world size is invertible (`(W : R) ≠ 0`; every `W ≥ 1`
+in characteristic 0), for every sharding `Fin W → List sample` (empty and unequal shards included),
+every per-sample clip function of the sample alone, both loss reductions, any noise values.
+
+* `DistributedDPOptimizer`, `DistributedDPOptimizerFastGradientClipping`,
+  `SimpleDistributedPerLayerOptimizer` (`ddpStepGrad`): full strength —
+  `ddp_step_eq_union_step`, `ddp_step_release_form`, `ddp_step_workers_agree`,
+  `ddp_run_eq_union_run` (construction + any number of steps), `noise_once_total`,
+  `ddp_step_indep_of_other_noise`, `broadcast_sync`.
+* `DistributedPerLayerOptimizer` under torch DDP (`hookStepGrad`): the full-strength statement
+  `hookStepGrad asCoded asCoded … = ok (union release)` is FALSE for the code as it stands
+  (findings C18-F1, C18-F2): `hooks_step_asCoded` (what the code computes: 2/W × the union release),
+  `hooks_step_asCoded_ne_union`, `hooks_step_eq_union_step_partial` (W = 2, no empty shard),
+  `hooks_step_counterexample`, `hooks_empty_shard_counterexample`, and
+  `hooks_repaired_step_eq_union_step` (full strength for the repaired hook). -/
 namespace Opacus.C18
 open Opacus.Dist
 
@@ -95,5 +117,252 @@ theorem noise_once_total (c : Cfg R P dims) (hW : 0 < W) :
   unfold ddpDraws
   rw [List.ofFn_succ, List.flatten_cons, hrest, List.append_nil]
   cases hn : c.noisy <;> simp [draws, hn, List.map_ofFn, Function.comp_def]
+
+/-! ## closed form of the release, all workers agree, runs -/
+
+/-- the single-process release in closed form: clip each sample by its own factor, sum, add the
+noise once, divide by `expected_batch_size · accumulated_iterations` (mean reduction) -/
+theorem single_release_form (c : Cfg R P dims) (batch : List (Grad R P dims)) (z : Grad R P dims)
+    (p : Fin P) (i : Fin (dims p)) :
+    singleStepGrad c batch z p i =
+      match c.red with
+      | .mean => ((batch.map fun g => c.clip g p * g p i).sum + (if c.noisy then z p i else 0)) / (c.ebs * c.k)
+      | .sum => (batch.map fun g => c.clip g p * g p i).sum + (if c.noisy then z p i else 0) := by
+  cases hr : c.red <;> simp [singleStepGrad, preStep, scaleGrad, hr, addNoise_apply, clipSum]
+
+/-- **ddp_step_eq_union_step**, closed form: on every worker the distributed step leaves
+`(Σ_w Σ_{s ∈ shard w} clip(s)·g(s) + z₀) / (E·k)` (mean) resp. the undivided sum (sum reduction):
+per-sample clip factors are those of the samples themselves, the shards are summed, rank 0's noise
+enters exactly once, and the denominator is the *global* expected batch size. -/
+theorem ddp_step_release_form (c : Cfg R P dims) (E : R) (hW : 0 < W) (hWR : (W : R) ≠ 0)
+    (shards : Fin W → List (Grad R P dims)) (z : Fin W → Grad R P dims) (w : Fin W)
+    (p : Fin P) (i : Fin (dims p)) :
+    ddpStepGrad (c.withEbs (engineEbs E true W)) shards z w p i =
+      match c.red with
+      | .mean => ((∑ v, ((shards v).map fun g => c.clip g p * g p i).sum) + (if c.noisy then z ⟨0, hW⟩ p i else 0)) / (E * c.k)
+      | .sum => (∑ v, ((shards v).map fun g => c.clip g p * g p i).sum) + (if c.noisy then z ⟨0, hW⟩ p i else 0) := by
+  rw [ddp_step_eq_union_step c E hW hWR, single_release_form]
+  have h := clipSum_union c.clip shards p i
+  simp only [clipSum] at h
+  cases hr : c.red <;> simp [Cfg.withEbs, engineEbs, hr, h]
+
+/-- every worker ends the step with the same gradient -/
+theorem ddp_step_workers_agree (c : Cfg R P dims) (E : R) (hW : 0 < W) (hWR : (W : R) ≠ 0)
+    (shards : Fin W → List (Grad R P dims)) (z : Fin W → Grad R P dims) (w w' : Fin W) :
+    ddpStepGrad (c.withEbs (engineEbs E true W)) shards z w
+      = ddpStepGrad (c.withEbs (engineEbs E true W)) shards z w' := by
+  rw [ddp_step_eq_union_step c E hW hWR, ddp_step_eq_union_step c E hW hWR]
+
+/-- **noise_once_total** (values): the noise the other ranks would have drawn is irrelevant -/
+theorem ddp_step_indep_of_other_noise (c : Cfg R P dims) (E : R) (hW : 0 < W) (hWR : (W : R) ≠ 0)
+    (shards : Fin W → List (Grad R P dims)) (z z' : Fin W → Grad R P dims)
+    (h0 : z ⟨0, hW⟩ = z' ⟨0, hW⟩) (w : Fin W) :
+    ddpStepGrad (c.withEbs (engineEbs E true W)) shards z w
+      = ddpStepGrad (c.withEbs (engineEbs E true W)) shards z' w := by
+  rw [ddp_step_eq_union_step c E hW hWR, ddp_step_eq_union_step c E hW hWR, h0]
+
+/-- one step on synchronised parameters keeps them synchronised and equal to the single-process ones -/
+theorem ddp_step_params (c : Cfg R P dims) (E : R) (hW : 0 < W) (hWR : (W : R) ≠ 0)
+    (θ : Grad R P dims) (shards : Fin W → List (Grad R P dims)) (z : Fin W → Grad R P dims) (w : Fin W) :
+    ddpStep (c.withEbs (engineEbs E true W)) (fun _ => θ) shards z w
+      = singleStep (c.withEbs (engineEbs E false W)) θ (unionBatch shards) (z ⟨0, hW⟩) := by
+  simp only [ddpStep, singleStep, ddp_step_eq_union_step c E hW hWR]
+  rfl
+
+/-- **ddp_run_eq_union_run**: construct DPDDP from arbitrary (different) per-rank initial
+parameters, then take any number of steps on any shardings: every worker holds exactly the
+parameters of the single-process run that starts from rank 0's parameters, sees the concatenated
+batches, uses the total expected batch size `E` and draws rank 0's noise. -/
+theorem ddp_run_eq_union_run (c : Cfg R P dims) (E : R) (hW : 0 < W) (hWR : (W : R) ≠ 0)
+    (θ0 : Fin W → Grad R P dims) (steps : List (StepIn R P dims W)) (w : Fin W) :
+    ddpRun (c.withEbs (engineEbs E true W)) (dpddpInit hW θ0) steps w
+      = unionRun (c.withEbs (engineEbs E false W)) hW (θ0 ⟨0, hW⟩) steps := by
+  have key : ∀ (θ : Grad R P dims) (steps : List (StepIn R P dims W)),
+      ddpRun (c.withEbs (engineEbs E true W)) (fun _ => θ) steps w
+        = unionRun (c.withEbs (engineEbs E false W)) hW θ steps := by
+    intro θ steps
+    induction steps generalizing θ with
+    | nil => rfl
+    | cons s rest ih =>
+      simp only [ddpRun, unionRun]
+      have : ddpStep (c.withEbs (engineEbs E true W)) (fun _ => θ) s.shards s.z
+          = fun _ => singleStep (c.withEbs (engineEbs E false W)) θ (unionBatch s.shards) (s.z ⟨0, hW⟩) := by
+        funext v; exact ddp_step_params c E hW hWR θ s.shards s.z v
+      rw [this]
+      exact ih _
+  exact key _ steps
+
+/-- in characteristic 0 every world size `W ≥ 1` qualifies -/
+theorem ddp_run_eq_union_run_charZero [CharZero R] (c : Cfg R P dims) (E : R) (hW : 0 < W)
+    (θ0 : Fin W → Grad R P dims) (steps : List (StepIn R P dims W)) (w : Fin W) :
+    ddpRun (c.withEbs (engineEbs E true W)) (dpddpInit hW θ0) steps w
+      = unionRun (c.withEbs (engineEbs E false W)) hW (θ0 ⟨0, hW⟩) steps :=
+  ddp_run_eq_union_run c E hW (Nat.cast_ne_zero.mpr (Nat.pos_iff_ne_zero.mp hW)) θ0 steps w
+
+/-! ## `DistributedPerLayerOptimizer` under torch DDP -/
+
+omit [Field R] in
+theorem hookErrRanks_nil_of_nonempty (shards : Fin W → List (Grad R P dims)) (h : ∀ w, shards w ≠ []) :
+    hookErrRanks .asCoded shards = [] := by
+  unfold hookErrRanks
+  simp only
+  rw [List.flatten_eq_nil_iff]
+  intro l hl
+  rw [List.mem_ofFn] at hl
+  obtain ⟨w, rfl⟩ := hl
+  have : (shards w).isEmpty = false := by
+    cases hs : shards w with
+    | nil => exact absurd hs (h w)
+    | cons a b => rfl
+  simp [this]
+
+private theorem aux_sum {R : Type} [Field R] {W : Nat} (a : Fin W → R) :
+    ∑ v, (a v + a v) / (W : R) = 2 / (W : R) * ∑ v, a v := by
+  rw [Finset.mul_sum]; exact Finset.sum_congr rfl fun v _ => by ring
+
+private theorem aux_mean {R : Type} [Field R] {W : Nat} (a : Fin W → R) (d : R) :
+    ∑ v, (a v / d + a v / d) / (W : R) = 2 / (W : R) * ((∑ v, a v) / d) := by
+  rw [Finset.sum_div, Finset.mul_sum]; exact Finset.sum_congr rfl fun v _ => by ring
+
+/-- **as coded** (finding C18-F1): with no empty shard every worker ends with `2/W` times the
+single-process release on the union batch — signal and noise alike. -/
+theorem hooks_step_asCoded (c : Cfg R P dims) (E : R) (hW : 0 < W) (hWR : (W : R) ≠ 0)
+    (shards : Fin W → List (Grad R P dims)) (hne : ∀ w, shards w ≠ []) (z : Fin W → Grad R P dims) :
+    hookStepGrad .asCoded .asCoded (c.withEbs (engineEbs E true W)) shards z
+      = .ok fun _ p i => 2 / (W : R) *
+          singleStepGrad (c.withEbs (engineEbs E false W)) (unionBatch shards) (z ⟨0, hW⟩) p i := by
+  unfold hookStepGrad
+  rw [hookErrRanks_nil_of_nonempty shards hne]
+  simp only
+  congr 1
+  funext w p i
+  have hsum := sum_addNoise (c.withEbs (engineEbs E true W)) hW
+    (fun w => clipSum c.clip (shards w)) z p i
+  cases hr : c.red
+  · simp only [torchDDPAverage, hookLocal, singleStepGrad, preStep, scaleGrad, Cfg.withEbs, hr,
+      sumFin_eq_sum, engineEbs, if_true, Bool.false_eq_true, if_false] at hsum ⊢
+    rw [addNoise_apply, clipSum_union]
+    simp only [Bool.true_and]
+    rw [← hsum]
+    have hd : E / (W : R) * c.k * (W : R) = E * c.k := by field_simp
+    rw [hd]
+    exact aux_mean _ _
+  · simp only [torchDDPAverage, hookLocal, singleStepGrad, preStep, scaleGrad, Cfg.withEbs, hr,
+      sumFin_eq_sum] at hsum ⊢
+    rw [addNoise_apply, clipSum_union]
+    simp only [Bool.true_and]
+    rw [← hsum]
+    exact aux_sum _
+
+/-- **partial** (the only world size for which the hook variant satisfies the property, and only
+without empty shards): `W = 2`. -/
+theorem hooks_step_eq_union_step_partial (c : Cfg R P dims) (E : R) (h2 : (2 : R) ≠ 0)
+    (shards : Fin 2 → List (Grad R P dims)) (hne : ∀ w, shards w ≠ []) (z : Fin 2 → Grad R P dims) :
+    hookStepGrad .asCoded .asCoded (c.withEbs (engineEbs E true 2)) shards z
+      = .ok fun _ => singleStepGrad (c.withEbs (engineEbs E false 2)) (unionBatch shards) (z 0) := by
+  have hWR : ((2 : Nat) : R) ≠ 0 := by simpa using h2
+  rw [hooks_step_asCoded c E (by decide) hWR shards hne z]
+  congr 1
+  funext w p i
+  have : (2 : R) / ((2 : Nat) : R) = 1 := by
+    rw [show ((2 : Nat) : R) = 2 by norm_num]; exact div_self h2
+  rw [this, one_mul]
+  rfl
+
+/-- **repaired hook** (returns the value without assigning `p.grad`; mean: divides by the local
+`expected_batch_size · k` only; sum: multiplies by `W` to undo DDP's averaging; no `view(0,-1)`):
+the full statement, every `W`, empty shards included. -/
+theorem hooks_repaired_step_eq_union_step (c : Cfg R P dims) (E : R) (hW : 0 < W) (hWR : (W : R) ≠ 0)
+    (shards : Fin W → List (Grad R P dims)) (z : Fin W → Grad R P dims) :
+    hookStepGrad .repaired .repaired (c.withEbs (engineEbs E true W)) shards z
+      = .ok fun _ => singleStepGrad (c.withEbs (engineEbs E false W)) (unionBatch shards) (z ⟨0, hW⟩) := by
+  unfold hookStepGrad
+  simp only [hookErrRanks]
+  congr 1
+  funext w p i
+  have hsum := sum_addNoise (c.withEbs (engineEbs E true W)) hW
+    (fun w => clipSum c.clip (shards w)) z p i
+  cases hr : c.red
+  · simp only [torchDDPAverage, hookLocal, singleStepGrad, preStep, scaleGrad, Cfg.withEbs, hr,
+      sumFin_eq_sum, engineEbs, if_true, Bool.false_eq_true, if_false] at hsum ⊢
+    rw [addNoise_apply, clipSum_union]
+    simp only [Bool.true_and]
+    rw [← hsum, Finset.sum_div]
+    refine Finset.sum_congr rfl fun v _ => ?_
+    rw [div_div]
+    congr 1
+    field_simp
+  · simp only [torchDDPAverage, hookLocal, singleStepGrad, preStep, scaleGrad, Cfg.withEbs, hr,
+      sumFin_eq_sum] at hsum ⊢
+    rw [addNoise_apply, clipSum_union]
+    simp only [Bool.true_and]
+    rw [← hsum]
+    refine Finset.sum_congr rfl fun v _ => ?_
+    field_simp
+
+/-- … hence for every world size other than 2 the hook variant misses the single-process release
+wherever that release is non-zero -/
+theorem hooks_step_asCoded_ne_union (c : Cfg R P dims) (E : R) (hW : 0 < W) (hWR : (W : R) ≠ 0)
+    (hW2 : (W : R) ≠ 2)
+    (shards : Fin W → List (Grad R P dims)) (hne : ∀ w, shards w ≠ []) (z : Fin W → Grad R P dims)
+    (p : Fin P) (i : Fin (dims p))
+    (hrel : singleStepGrad (c.withEbs (engineEbs E false W)) (unionBatch shards) (z ⟨0, hW⟩) p i ≠ 0) :
+    hookStepGrad .asCoded .asCoded (c.withEbs (engineEbs E true W)) shards z
+      ≠ .ok fun _ => singleStepGrad (c.withEbs (engineEbs E false W)) (unionBatch shards) (z ⟨0, hW⟩) := by
+  rw [hooks_step_asCoded c E hW hWR shards hne z]
+  intro h
+  have h1 := congrFun (congrFun (congrFun (Except.ok.inj h) ⟨0, hW⟩) p) i
+  have h2 : (2 / (W : R) - 1) *
+      singleStepGrad (c.withEbs (engineEbs E false W)) (unionBatch shards) (z ⟨0, hW⟩) p i = 0 := by
+    rw [sub_mul, one_mul, h1, sub_self]
+  rcases mul_eq_zero.mp h2 with h3 | h3
+  · apply hW2
+    have : (2 : R) / (W : R) = 1 := by linear_combination h3
+    field_simp at this
+    exact this.symm
+  · exact hrel h3
+
+/-! ## concrete witnesses (exact integer arithmetic; replayed on the real code by the harness)
+
+Two parameters of sizes 1 and 2, token rows `(a | b, c)`, clip factor 1, no noise, sum reduction. -/
+
+def dimsW : Fin 2 → Nat := ![1, 2]
+def tok (a b c : Int) : Grad Int 2 dimsW := fun p i => if p = 0 then a else if i.val = 0 then b else c
+def cfgW (e : Int) : Cfg Int 2 dimsW := ⟨.sum, e, 1, 0, false, 1, fun _ _ => 1⟩
+/-- three workers, one sample each -/
+def shards3 : Fin 3 → List (Grad Int 2 dimsW) := ![[tok 3 0 6], [tok 6 3 0], [tok 0 6 3]]
+/-- two workers, the second one holds an empty shard -/
+def shardsE : Fin 2 → List (Grad Int 2 dimsW) := ![[tok 3 0 6, tok 6 9 3], []]
+/-- three workers, unequal shards, one empty -/
+def shardsU : Fin 3 → List (Grad Int 2 dimsW) := ![[tok 3 0 6, tok 0 6 3], [], [tok 6 3 0]]
+
+/-- **counterexample** (finding C18-F1, `W = 3`): every worker ends with `(6 | 6, 6)`, the
+single-process step on the union batch gives `(9 | 9, 9)`. -/
+theorem hooks_step_counterexample :
+    (∀ w p i, (hookStepGrad .asCoded .asCoded (cfgW (engineEbs 3 true 3)) shards3 (fun _ _ _ => 0)).toOption.map
+        (fun g => g w p i) = some 6) ∧
+    (∀ p i, singleStepGrad (cfgW (engineEbs 3 false 3)) (unionBatch shards3) (fun _ _ => 0) p i = 9) := by
+  decide
+
+/-- **counterexample** (finding C18-F2): with an empty shard on rank 1 the hook raises there, while
+the single-process step on the union batch is `(9 | 9, 9)` -/
+theorem hooks_empty_shard_counterexample :
+    hookStepGrad .asCoded .asCoded (cfgW (engineEbs 2 true 2)) shardsE (fun _ _ _ => 0) = .error [1] ∧
+    (∀ p i, singleStepGrad (cfgW (engineEbs 2 false 2)) (unionBatch shardsE) (fun _ _ => 0) p i = 9) := by
+  constructor
+  · rfl
+  · decide
+
+/-- non-vacuity / sanity of the main theorem's objects on a sharding with an empty and unequal
+shards: the flat distributed step and the repaired hook both give the union release on every rank -/
+example :
+    (∀ w p i, ddpStepGrad (cfgW (engineEbs 3 true 3)) shardsU (fun _ _ _ => 0) w p i = 9) ∧
+    (∀ w p i, (hookStepGrad .repaired .repaired (cfgW (engineEbs 3 true 3)) shardsU (fun _ _ _ => 0)).toOption.map
+        (fun g => g w p i) = some 9) ∧
+    (∀ p i, singleStepGrad (cfgW (engineEbs 3 false 3)) (unionBatch shardsU) (fun _ _ => 0) p i = 9) := by
+  decide
+
+/-- the hypotheses of the field theorems are satisfiable: ℚ, three workers -/
+example : (0 < 3) ∧ ((3 : Nat) : ℚ) ≠ 0 ∧ ((3 : Nat) : ℚ) ≠ 2 := by norm_num
 
 end Opacus.C18
